@@ -24,8 +24,8 @@ CHECKS["C09"] = dict(
     design="4/C09")
 
 CHECKS["C11"] = dict(
-    text="Coq theorems about the recursive traversal model: non-editing visitors always get 'keep' (identity), the all-idle visitor's call log is the DFS enter/leave bracket sequence with the stated key/path/#ancestors and depth fuel suffices; QUERY_DOCUMENT_KEYS re-swept against the node classes every run. The real visit()/ParallelVisitor (explicit-stack machine) is tied to the model by correspondence on generated ASTs of all node kinds x scripted visitors (idle/skip/break/remove/replace on enter/leave, root included) x parallel groupings: call logs, result trees, identity, input snapshots, context at every call",
-    note="visit_rec model is specification-shaped; machine-refines-model is by correspondence not proof; parallel projection theorem not proved (checked on impl and against the model); reflection-based dispatch only explored",
+    text="Coq theorems about the recursive traversal model: non-editing visitors always get 'keep' (identity), parallel non-editing visitors see exactly their solo call sequence incl. under SKIP and BREAK (C11_parallel_projection), the all-idle visitor's call log is the DFS enter/leave bracket sequence with the stated key/path/#ancestors and depth fuel suffices; QUERY_DOCUMENT_KEYS re-swept against the node classes every run. The real visit()/ParallelVisitor (explicit-stack machine) is tied to the model by correspondence on generated ASTs of all node kinds x scripted visitors (idle/skip/break/remove/replace on enter/leave, root included) x parallel groupings: call logs, result trees, identity, input snapshots, context at every call",
+    note="visit_rec model is specification-shaped; machine-refines-model is by correspondence not proof; reflection-based dispatch only explored",
     technique="Coq proof (recursive traversal model) + extraction-based correspondence with scripted visitors",
     design="4/C11")
 
@@ -54,13 +54,13 @@ CHECKS["C04"] = dict(
 
 CHECKS["C20"] = dict(
     text="Coq model `validate : raw_schema -> list rule_kind` of type/validate.py over raw (possibly ill-kinded) schemas. Proved: the assert site of default-value validation and fuel exhaustion are unreachable for every schema; `validate rs = [] <-> ValidSchema rs` for a declarative rule set covering every rule of validate.py (inductive Subtype and LitValid relations, acyclicity by reachability); both DFS cycle detectors terminate (fuel = #types / #input fields), are sound and complete; per-kind iff for input/output position, invalid default, required-deprecated and both cycle kinds. Correspondence: generated valid schemas, single (all-sites) and double rule-violating mutants, and grammar-random ill-kinded schemas, built programmatically and from SDL (with/without SDL pre-validation, with extensions); compared on raise / emptiness / set of rule kinds / graphql_sync response",
-    note="every rule of validate.py is in the model; not modelled: error node/location lists and message wording, order of errors, the _validation_errors cache, assume_valid=True; defaults modelled for const literals and plain Python values, custom scalars accept everything; not generated: constructor-rejected inputs, NonNull-of-NonNull; the dump of the built schema and the message-to-kind classifier are trusted harness code; no refinement proof ties validate.py's control flow to the model (correspondence only)",
+    note="every rule of validate.py is in the model; not modelled: error node/location lists and message wording, order of errors, the _validation_errors cache, assume_valid=True; defaults modelled for const literals and plain Python values, custom scalars accept everything; history-dependent construction paths covered: to_kwargs() of a validated schema, extend_schema, lexicographic_sort_schema; not generated: constructor-rejected inputs, NonNull-of-NonNull; the dump of the built schema and the message-to-kind classifier are trusted harness code; no refinement proof ties validate.py's control flow to the model (correspondence only)",
     technique="Coq proof (validator reflects declarative rules; cycle detectors sound and complete) + extraction-based correspondence on mutants",
     design="4/C20")
 
 CHECKS["C14"] = dict(
-    text="Specification's FieldsInSetCanMerge/SameResponseShape as an executable Coq function proved terminating on all documents (cyclic spreads included) and adequate w.r.t. an inductive declarative reading; the rule's two memo tables (PairSet, OrderedPairSet) modelled exactly with their laws proved; the memoised algorithm (steps A-J) modelled and proved never to skip a comparison on a weaker memo entry. Equivalence of the memoised algorithm with the specification function is NOT proved: it is checked on every run by comparing the real rule, the extracted specification function and the extracted memoised model on generated documents (also location-free ASTs), including the real rule's memo decision trace",
-    note="names interned; out of fragment (skipped and counted): untypable fields, __schema/__type, fragment arguments, @stream, duplicate argument names, block-string arguments; literal identity = same kind and source text after sorting input-object keys; C14_equiv is stated, not proved",
+    text="Specification's FieldsInSetCanMerge/SameResponseShape as an executable Coq function proved terminating on all documents (cyclic spreads included) and adequate w.r.t. an inductive declarative reading; the rule's two memo tables (PairSet, OrderedPairSet) modelled exactly with their laws proved; the memoised algorithm (steps A-J) modelled and proved never to skip a comparison on a weaker memo entry. The memoised algorithm is proved terminating and equivalent to the specification function for documents without named fragments (C14_equiv_partial); with fragments the equivalence is checked on every run by comparing the real rule, the extracted specification function and the extracted memoised model on generated documents (also location-free ASTs), including the real rule's memo decision trace",
+    note="names interned; out of fragment (skipped and counted): untypable fields, __schema/__type, fragment arguments, @stream, duplicate argument names, block-string arguments; literal identity = same kind and source text after sorting input-object keys; C14_equiv proved only for fragment-free documents",
     technique="Coq proof (spec function terminates and is adequate; memo laws) + extraction-based differential correspondence",
     design="4/C14")
 CHECKS["C12"] = dict(
@@ -79,6 +79,17 @@ CHECKS["C15"] = dict(
     note="C15_rule_agrees_partial: the static literal validator agrees with coercion on constants, but the ValuesOfCorrectTypeRule traversal (TypeInfo + visitor) is tied by correspondence only; fragment: built-in scalars, enums, recursive and OneOf input objects with literal defaults; fragment variables, custom scalars, out_name, max_errors, stateful iterators, non-str dict keys not modelled; no closed-form fuel bound (stability only)",
     technique="Coq proof (coerce/validate agreement, conformance, round trip) + extraction-based correspondence",
     design="4/C15")
+
+CHECKS["C02"] = dict(
+    text="Coq theorems over a hand-written Gallina model of the specification's execution algorithm (CollectFields, ExecuteSelectionSet/Field, CoerceVariable/ArgumentValues incl. input objects/OneOf/defaults, CompleteValue, error propagation), for all schemas/documents/variables/data of the fragment: response shape (keys = collected response keys in first-appearance order, null only where nullable, leaf/list/object kinds, runtime types), every error path leads to a null at it or an ancestor, null data iff an error propagated to the root, every null is a null value or has an error at or below, resolver arguments = coerced arguments, fuel independence; tied to /repo by extraction-based correspondence on type-directed generated requests (data incl. key order, error-path multiset, resolver call log), each executed three times for history independence",
+    note="the specification model is a trusted reading of spec section 6; equality of /repo to it is explored by generation, not proved; no Impl layer for the memo caches (history independence is trivial in the pure model and tested on /repo by re-execution; the sub-selection memo is additionally monitored in C03); OutOfFuel is excluded in the statements; custom scalars, lenient leaf serialisation (C16), middleware, fragment arguments, defer/stream, async are outside",
+    technique="Coq proof (spec-model invariants) + extraction-based correspondence + re-execution history check",
+    design="4/C02")
+CHECKS["C13"] = dict(
+    text="Coq theorem C13_sound (total for the fragment incl. fragments, abstract types, variables with defaults, input objects/OneOf): a document accepted by the model's typing judgment, with accepted variables none of which is a null in a non-null position, over conforming data on a schema with valid defaults executes with no errors, non-null data and the prescribed shape; C13_errors_attributable: with arbitrary data no error is due to argument/variable coercion; the spec-deferred null-variable exception is characterised exactly with a witness; the checkers the harness runs (typing, shape) are proved sound. validate()==[] implies well_typed, and error attribution on /repo, are checked on generated documents and mutants",
+    note="validate() => well_typed is established by generation, not proved (the 31 rules are not modelled; the judgment is a runtime-type-directed abstraction of the rules execution depends on); transfer to /repo goes through C02's correspondence",
+    technique="Coq proof (type soundness of the execution model) + extraction-based checker correspondence + error-attribution search",
+    design="4/C13")
 
 NOT_YET = {}
 
